@@ -225,6 +225,8 @@ def main():
     for call, gate in ((firstuse[16], 'stdnum.gb.vat'), (firstuse[6], 'stdnum.be.vat'), (('eu.vat', 'validate', ['BE0428759497']), 'stdnum.be.vat'),
                        (firstuse[18], 'stdnum.es.iban'), (firstuse[7], 'stdnum.no.iban')):
         jobs.append({'kind': 'gate', 'calls': [{'mod': call[0], 'fn': call[1], 'args': call[2]}], 'gate': gate})
+        # ... and while the first thread is still INSIDE the module body (module in sys.modules, marked as initialising)
+        jobs.append({'kind': 'gate', 'calls': [{'mod': call[0], 'fn': call[1], 'args': call[2]}], 'gate': gate, 'gate_at': 'body'})
     # ---- run the jobs, each in its own interpreter
     with ThreadPoolExecutor(max_workers=16) as ex:
         outs = list(ex.map(run_runner, jobs))
